@@ -1,0 +1,60 @@
+//go:build verif
+
+package pdf
+
+import (
+	"io"
+
+	"seehuhn.de/go/membudget"
+	"seehuhn.de/go/pdf/internal/filter/ccittfax"
+	"seehuhn.de/go/pdf/internal/filter/predict"
+)
+
+// This file is only compiled with the build tag "verif".  It exposes the
+// predictor and CCITTFax stages and a few unexported filter helpers to an
+// external verification harness; it adds no behaviour of its own.
+
+// VerifPredictParams mirrors predict.Params.
+type VerifPredictParams = predict.Params
+
+// VerifCCITTParams mirrors ccittfax.Params.
+type VerifCCITTParams = ccittfax.Params
+
+// VerifPredictValidate calls Params.Validate and returns the derived sizes.
+func VerifPredictValidate(p *VerifPredictParams) (err error, bytesPerRow, bytesPerPixel int) {
+	if err := p.Validate(); err != nil {
+		return err, 0, 0
+	}
+	a, b := predict.VerifSizes(p)
+	return nil, a, b
+}
+
+// VerifPaeth calls the unexported paethPredictor.
+func VerifPaeth(a, b, c byte) byte { return predict.VerifPaeth(a, b, c) }
+
+// VerifPredictWriter calls predict.NewWriter.
+func VerifPredictWriter(w io.WriteCloser, p *VerifPredictParams) (io.WriteCloser, error) {
+	return predict.NewWriter(w, p)
+}
+
+// VerifPredictReader calls predict.NewReader.
+func VerifPredictReader(r io.ReadCloser, p *VerifPredictParams, budget *membudget.Budget) (io.ReadCloser, error) {
+	return predict.NewReader(r, p, budget)
+}
+
+// VerifCCITTBufferBytes calls ccittfax.BufferBytes.
+func VerifCCITTBufferBytes(p *VerifCCITTParams) int { return ccittfax.BufferBytes(p) }
+
+// VerifCCITTToParams calls FilterCCITTFax.toParams.
+func VerifCCITTToParams(f FilterCCITTFax) *VerifCCITTParams { return f.toParams() }
+
+// VerifAppendFilter calls appendFilter.
+func VerifAppendFilter(streamDict Dict, name Name, parms Dict) { appendFilter(streamDict, name, parms) }
+
+// VerifPredictParamsOf calls predictParams.
+func VerifPredictParamsOf(p FlatePredictor, colors, bpc, columns int) *VerifPredictParams {
+	return predictParams(p, colors, bpc, columns)
+}
+
+// VerifMaxFilterChainLength is maxFilterChainLength.
+const VerifMaxFilterChainLength = maxFilterChainLength
